@@ -46,6 +46,12 @@ def check(ctx):
     # actor level: lockstep replay of the real actor system against the kernel model (tie T1)
     k = vlib.go_build(ctx, "klock")
     vlib.run_harness(ctx, k, "klock", kinds=["C02:", "kernel:"])
+    # real time, truly parallel: workers failing under Resume-always supervisors that decide on other goroutines, later
+    # serials queued behind every failure (monitors only: stranded / duplicated / reordered / dead-lettered while alive)
+    e = vlib.go_build(ctx, "c04esc")
+    vlib.run_harness(ctx, e, "esc", coq=False, kinds=["C02:esc:"])
+    ctx.trusted.append("sub-harness 'esc' (harness/cmd/c04esc): search oracle only, no model — real ActorSystem in real time, GOMAXPROCS >= 4; "
+                       "1.5 s without progress counts as quiescent; the interleavings are those the Go runtime happens to produce")
     if ctx.tier == "thorough":
         vlib.coqchk(ctx, ["MV.C02.Properties"])
     return vlib.finish(ctx, "make -C coq && coqc C02/Properties.v (Print Assumptions); instrument+build current mailbox sources; build klock against "
@@ -57,4 +63,7 @@ def replay(ctx, path):
     if json.load(open(path)).get("sub") == "lfq":
         import c15
         return c15.replay(ctx, path)
+    if json.load(open(path)).get("sub") == "esc":
+        import c04
+        return c04.replay(ctx, path)
     return c01.replay(ctx, path)
